@@ -23,6 +23,8 @@ package main
 //@   modifies Context.blockProcessed
 
 //@ func (*simNode).Run
+//@   recvname n
+//@   params ctx
 //@   loops 2
 //@   requires ctx != nil && n.d.Config.Timer != nil
 //@   loop 1: invariant n.d.Config.Timer != nil
@@ -39,18 +41,24 @@ package main
 //@ pure Timer.View
 //@ pure Block.Hash
 //@ func (*simNode).ProcessBlock
+//@   recvname n
+//@   params b
 //@   loops 1
 //@   requires b != nil && n.d != nil && n.pool != nil
 //@   ensures [C17] @tipAdvances result == nil && n.height == b.Index() && n.lastHash == b.Hash()
 //@ func (*simNode).CurrentHeight
+//@   recvname n
 //@   loops 0
 //@   ensures [C17] @reportsTip result == n.height
 //@ func (*simNode).CurrentBlockHash
+//@   recvname n
 //@   loops 0
 //@   ensures [C17] @reportsTip result == n.lastHash
 
 // a broadcast tries every other node of the cluster once (a full inbox drops the message, it does not skip the peer)
 //@ func (*simNode).Broadcast
+//@   recvname n
+//@   params m
 //@   loops 1
 //@   requires n.log != nil && forall(k, 0, len(n.cluster), n.cluster[k] != nil && n.cluster[k].messages != nil)
 //@   loop 1: invariant 0 <= idx && idx <= len(n.cluster) && sendattempts() - before(sendattempts()) == count(j, 0, idx, j != n.id)
